@@ -52,7 +52,18 @@ def format_code(text, filename):
                 + result.stderr.decode("utf-8")
             )
             return text
-        return result.stdout.decode("utf-8")
+
+        formatted = result.stdout.decode("utf-8")
+        if text.strip() and not formatted.strip():
+            # e.g. a command which formats the file in place instead of stdin -> stdout
+            raise_problem(
+                f"""\
+[b]The format_command '{escape(format_command)}' returned no code.[/b]
+It has to read the code from stdin and write the formatted code to stdout.
+"""
+            )
+            return text
+        return formatted
 
     try:
         from black import format_str
